@@ -27,3 +27,4 @@ CFG = dict(
      timeout_quick=900, timeout_thorough=3000)
 CFG["rule"] += ' Concurrent programs run under the watchdog: a program none of whose goroutines returns (all blocked inside the structure) is reported as a violation, not a timeout.'
 CFG["rule"] += ' TestMapOddKeys: map keys of float, struct, array and interface types including NaN (not equal to itself), +0/-0 and equal-looking interface values of different dynamic types; sequential histories against the builtin map, compared after every operation.'
+CFG["rule"] += ' TestBigSliceAppendRace: case = (prefill of 1024..5000 elements appended sequentially in a drawn shape, so that the backing array usually keeps spare capacity; 2..6 goroutines released through a start barrier, each with a drawn list of Append batches of 1..3000 elements, many of them single elements), repeated for 300 (quick) / 500 (thorough) rounds on fresh slices; after all goroutines returned, Len() and Slice() must show the prefill followed by every batch exactly once, contiguous, in per-goroutine program order, each Append having returned the length just behind its batch. Non-trivial: prefill >= 1024 and the first batch of one goroutine exceeds the spare capacity while the first Append of another goroutine is a single element that fits (capacity read from the returned header for classification only). Distinct by shape, prefill sizes and batch sizes.'
